@@ -16,6 +16,14 @@
 // which Props/C33 checks).  For '/', whose body is `if s.ch == '/' || s.ch == '*' { comment }
 // else { <simple> }`, the else branch is translated and '/' is listed as special as well.
 // The definitions of switch2/3/4 themselves are checked against their expected text.
+//
+// For every special case the translator also emits its *effect skeleton* into
+// Generated/ScanSpecials.lean (`<dialect>SpecialFx`): in source order, every assignment to the
+// token / literal / insertSemi / a scanner field, every `s.nParen++/--`, every call of a scanner
+// method (`s.tokSEMICOLON()`, `s.next()`, `s.scanString()`, ...), every `if` condition, `return`
+// and `goto`; likewise for the helper `tokSEMICOLON` (`<dialect>SemicolonFx`).  Lemmas/ScanSpecials.lean pins these skeletons to the ones the hand-written model
+// of the special cases was written from, so dropping or adding a state-affecting call in a
+// special case changes the generated table and breaks the tie (DESIGN 2.8, fingerprint tie).
 package main
 
 import (
@@ -296,13 +304,72 @@ func (c *ssCtx) ifChain(x *ast.IfStmt) (*ssTrie, error) {
 	return &ssTrie{c: ch, yes: yes, no: no}, nil
 }
 
+// ssEffects: the effect skeleton of a special case body (see the file comment).
+func (c *ssCtx) ssEffects(stmts []ast.Stmt) []string {
+	var fx []string
+	state := func(e ast.Expr) bool {
+		t := tokShow(c.fset, e)
+		return t == c.tokVar || t == "lit" || t == "t.Lit" || t == "insertSemi" || strings.HasPrefix(t, "s.")
+	}
+	show := func(n interface{}) string { return tokNorm(tokShow(c.fset, n)) }
+	var visit func(n ast.Node) bool
+	walk := func(n ast.Node) {
+		if n != nil {
+			ast.Inspect(n, visit)
+		}
+	}
+	visit = func(n ast.Node) bool {
+		switch x := n.(type) {
+		case *ast.AssignStmt:
+			for _, l := range x.Lhs {
+				if state(l) {
+					fx = append(fx, show(x))
+					return false
+				}
+			}
+		case *ast.IncDecStmt:
+			if state(x.X) {
+				fx = append(fx, show(x))
+				return false
+			}
+		case *ast.IfStmt:
+			if x.Init != nil {
+				walk(x.Init)
+			}
+			fx = append(fx, "if "+show(x.Cond))
+			walk(x.Body)
+			if x.Else != nil {
+				fx = append(fx, "else")
+				walk(x.Else)
+			}
+			fx = append(fx, "end")
+			return false
+		case *ast.CallExpr:
+			if f := show(x.Fun); strings.HasPrefix(f, "s.") {
+				fx = append(fx, "call "+f)
+			}
+		case *ast.ReturnStmt:
+			fx = append(fx, show(x))
+			return false
+		case *ast.BranchStmt:
+			fx = append(fx, show(x))
+			return false
+		}
+		return true
+	}
+	for _, st := range stmts {
+		walk(st)
+	}
+	return fx
+}
+
 var ssSwitchDefs = map[string]string{
 	"switch2": "{ if s.ch == '=' { s.next() return tok1 } return tok0 }",
 	"switch3": "{ if s.ch == '=' { s.next() return tok1 } if s.ch == ch2 { s.next() return tok2 } return tok0 }",
 	"switch4": "{ if s.ch == '=' { s.next() return tok1 } if s.ch == ch2 { s.next() if s.ch == '=' { s.next() return tok3 } return tok2 } return tok0 }",
 }
 
-func ssDialect(b *bytes.Buffer, name, file string, tp *tokPkg, tokVar string) error {
+func ssDialect(b, fxb *bytes.Buffer, name, file string, tp *tokPkg, tokVar string) error {
 	fset := token.NewFileSet()
 	f, err := parser.ParseFile(fset, file, nil, 0)
 	if err != nil {
@@ -310,6 +377,7 @@ func ssDialect(b *bytes.Buffer, name, file string, tp *tokPkg, tokVar string) er
 	}
 	c := &ssCtx{fset: fset, tokpkg: tp, tokVar: tokVar}
 	var scan *ast.FuncDecl
+	var semicolonFx []string
 	seen := map[string]bool{}
 	for _, d := range f.Decls {
 		fd, ok := d.(*ast.FuncDecl)
@@ -318,6 +386,9 @@ func ssDialect(b *bytes.Buffer, name, file string, tp *tokPkg, tokVar string) er
 		}
 		if fd.Name.Name == "Scan" {
 			scan = fd
+		}
+		if fd.Name.Name == "tokSEMICOLON" {
+			semicolonFx = c.ssEffects(fd.Body.List)
 		}
 		if want, ok := ssSwitchDefs[fd.Name.Name]; ok {
 			if got := tokNorm(tokShow(fset, fd.Body)); got != want {
@@ -352,6 +423,7 @@ func ssDialect(b *bytes.Buffer, name, file string, tp *tokPkg, tokVar string) er
 	}
 	var ops []entry
 	var specials []int64
+	specialFx := map[int64][]string{}
 	hasDefault := false
 	seenCh := map[int64]bool{}
 	for _, cl := range sw.Body.List {
@@ -377,12 +449,14 @@ func ssDialect(b *bytes.Buffer, name, file string, tp *tokPkg, tokVar string) er
 			}
 			seenCh[ch] = true
 			body := cc.Body
+			fxBody := cc.Body
 			special := false
 			if ch == '/' && len(body) == 1 {
 				// if s.ch == '/' || s.ch == '*' { comment } else { simple }
 				if is, ok := body[0].(*ast.IfStmt); ok && is.Init == nil && tokNorm(tokShow(fset, is.Cond)) == "s.ch == '/' || s.ch == '*'" {
 					if eb, ok := is.Else.(*ast.BlockStmt); ok {
 						body = eb.List
+						fxBody = is.Body.List // the else branch is translated into the trie
 						special = true
 					}
 				}
@@ -394,6 +468,7 @@ func ssDialect(b *bytes.Buffer, name, file string, tp *tokPkg, tokVar string) er
 			if err != nil {
 				if _, ok := err.(*ssNotSimple); ok && !special {
 					specials = append(specials, ch)
+					specialFx[ch] = c.ssEffects(fxBody)
 					continue
 				}
 				return broken("%s: case %q: %v", file, rune(ch), err)
@@ -401,6 +476,7 @@ func ssDialect(b *bytes.Buffer, name, file string, tp *tokPkg, tokVar string) er
 			ops = append(ops, entry{ch, t})
 			if special {
 				specials = append(specials, ch)
+				specialFx[ch] = c.ssEffects(fxBody)
 			}
 		}
 	}
@@ -422,12 +498,36 @@ func ssDialect(b *bytes.Buffer, name, file string, tp *tokPkg, tokVar string) er
 		fmt.Fprintf(b, "%d", s)
 	}
 	b.WriteString("]\n")
+	fmt.Fprintf(fxb, "\n/-- %s Scan: effect skeleton of every special case (1114112 = EOF), in source order -/\ndef %sSpecialFx : List (Nat × List String) := [\n", name, name)
+	for i, s := range specials {
+		if i > 0 {
+			fxb.WriteString(",\n")
+		}
+		fmt.Fprintf(fxb, "  (%d, [", s)
+		for j, e := range specialFx[s] {
+			if j > 0 {
+				fxb.WriteString(", ")
+			}
+			fxb.WriteString(strconv.QuoteToASCII(e))
+		}
+		fxb.WriteString("])")
+	}
+	fxb.WriteString("]\n")
+	fmt.Fprintf(fxb, "\n/-- %s: effect skeleton of the helper `tokSEMICOLON` (empty: the scanner has no such method) -/\ndef %sSemicolonFx : List String := [", name, name)
+	for j, e := range semicolonFx {
+		if j > 0 {
+			fxb.WriteString(", ")
+		}
+		fxb.WriteString(strconv.QuoteToASCII(e))
+	}
+	fxb.WriteString("]\n")
 	return nil
 }
 
 func ssTarget(repo, out string) error {
 	goroot := tokGoEnv("GOROOT")
-	var b bytes.Buffer
+	var b, fxb bytes.Buffer
+	fxb.WriteString("/- GENERATED by /verif/extract (target `scanswitch`): the effect skeletons of the special cases of\n   the operator switch of Scan (see extract/scanswitch.go).  Do not edit. Definitions only. -/\nnamespace GopModel.Generated.ScanSpecials\n")
 	b.WriteString("/- GENERATED by /verif/extract (target `scanswitch`) from the operator switch of Scan in\n   scanner/scanner.go, tpl/scanner/scanner.go (tree under test) and go/scanner (toolchain).\n   Do not edit. Definitions only. -/\nimport GopModel.Model.ScanTries\nnamespace GopModel.Generated.ScanSwitch\nopen GopModel.Scan\n")
 	load := func(dir string) (*tokPkg, error) {
 		p, err := tokLoadPkg(dir, func(path string) (*tokPkg, error) {
@@ -446,24 +546,28 @@ func ssTarget(repo, out string) error {
 	if err != nil {
 		return err
 	}
-	if err := ssDialect(&b, "xgo", filepath.Join(repo, "scanner/scanner.go"), x, "tok"); err != nil {
+	if err := ssDialect(&b, &fxb, "xgo", filepath.Join(repo, "scanner/scanner.go"), x, "tok"); err != nil {
 		return err
 	}
 	t, err := load(filepath.Join(repo, "tpl/token"))
 	if err != nil {
 		return err
 	}
-	if err := ssDialect(&b, "tpl", filepath.Join(repo, "tpl/scanner/scanner.go"), t, "t.Tok"); err != nil {
+	if err := ssDialect(&b, &fxb, "tpl", filepath.Join(repo, "tpl/scanner/scanner.go"), t, "t.Tok"); err != nil {
 		return err
 	}
 	g, err := load(filepath.Join(goroot, "src/go/token"))
 	if err != nil {
 		return err
 	}
-	if err := ssDialect(&b, "go", filepath.Join(goroot, "src/go/scanner/scanner.go"), g, "tok"); err != nil {
+	if err := ssDialect(&b, &fxb, "go", filepath.Join(goroot, "src/go/scanner/scanner.go"), g, "tok"); err != nil {
 		return err
 	}
 	b.WriteString("\nend GopModel.Generated.ScanSwitch\n")
+	fxb.WriteString("\nend GopModel.Generated.ScanSpecials\n")
+	if err := writeIfChanged(filepath.Join(out, "ScanSpecials.lean"), fxb.Bytes()); err != nil {
+		return err
+	}
 	return writeIfChanged(filepath.Join(out, "ScanSwitch.lean"), b.Bytes())
 }
 
